@@ -25,7 +25,11 @@ Menu == { It("cmt", "", FALSE, <<>>), It("inc", "", FALSE, <<>>), It("abi", "", 
           It("var", "exec_path", TRUE,  << <<L("/o"), R("a"), R("b")>> >>),      \* diamond: a directly and through b
           It("var", "exec_path", FALSE, << <<R("b"), L("/u")>> >>),
           It("var", "a", TRUE,  << <<R("a"), L("/p")>> >>),
-          It("var", "exec_path", TRUE,  << <<R("nodef")>> >>) }
+          It("var", "exec_path", TRUE,  << <<R("nodef")>> >>),
+          \* colliding expansions: the same value twice, values that are repetitions of one another under several references
+          It("var", "a", FALSE, << <<L("/p")>> >>),
+          It("var", "a", TRUE,  << <<L("3")>>, <<L("33")>> >>),
+          It("var", "exec_path", TRUE,  << <<L("/o"), R("a"), R("a"), R("a")>> >>) }
 Atts == << <<R("exec_path")>> >>
 
 \* the preamble is built item by item, so that TLC's workers share the exploration
